@@ -37,3 +37,59 @@ def of(F, inst):
     if k not in _cache:
         _cache[k] = An(F, inst)
     return _cache[k]
+
+
+def aliases_of(A, local=1):
+    """locals that hold the same reference as `local` (an argument): every definition is a whole-value copy/move or a
+    reborrow `&mut *x` / `&*x` of a local already in the set.  After INLINE a helper's `self` parameter is such an alias."""
+    b = A.body
+    al = {local}
+    changed = True
+    while changed:
+        changed = False
+        for l, defs in A.tb.defs.items():
+            if l in al or not defs:
+                continue
+            ok = True
+            for d in defs:
+                if d[3] and d[3][0] == "*":
+                    continue        # a store through the reference, not a new value for the local
+                if d[0] != "stmt" or d[3]:
+                    ok = False
+                    break
+                st = b.stmts(d[1])[d[2]]
+                if st["k"] != "assign":
+                    ok = False
+                    break
+                rv = st["rv"]
+                if rv["k"] == "use":
+                    pl = rv["op"].get("c") or rv["op"].get("m")
+                    if not (pl and not pl.get("p") and pl["l"] in al):
+                        ok = False
+                        break
+                elif rv["k"] == "ref":
+                    pl = rv["pl"]
+                    if not (pl["l"] in al and pl.get("p") == ["*"]):
+                        ok = False
+                        break
+                else:
+                    ok = False
+                    break
+            if ok:
+                al.add(l)
+                changed = True
+    return al
+
+
+def writes_through(A, local=1):
+    """[(bb, stmt index, first field name, value term)] of the assignments `(*x).field.. = v` with x an alias of `local`"""
+    b = A.body
+    al = aliases_of(A, local)
+    out = []
+    for bb in sorted(b.reachable):
+        for si, st in enumerate(b.stmts(bb)):
+            if st["k"] == "assign" and st["lhs"]["l"] in al and st["lhs"].get("p"):
+                p = st["lhs"]["p"]
+                fld = next((e for e in p if isinstance(e, dict) and "f" in e), None)
+                out.append((bb, si, fld.get("n") if fld else None, A.tb.rvalue(st["rv"], (bb, si), st)))
+    return out
